@@ -798,6 +798,14 @@ class Interp:
                     return Obj(f"{basev.name}.{e.attr}")
                 if isinstance(basev, Poly) and e.attr in ("dtype", "device"):
                     return Obj(e.attr)
+            if e.attr == "shape" and self.externals.get("__elementwise__"):
+                try:
+                    bv = self.eval(e.value)
+                except Undecided:
+                    bv = None
+                if isinstance(bv, list):
+                    from .listnp import _shape as _lshape
+                    return tuple(Poly.const(d) for d in _lshape(bv))
             if e.attr == "shape":
                 return SHAPE
             if e.attr == "inf" and A.dotted(e) in ("np.inf", "math.inf", "numpy.inf", "jnp.inf", "torch.inf"):
@@ -969,17 +977,32 @@ class Interp:
         self.env = saved
         return results
 
+    def eval_args(self, args):
+        """Positional actuals with *starred sequences expanded."""
+        out = []
+        for a in args:
+            if isinstance(a, ast.Starred):
+                v = self.eval(a.value)
+                if isinstance(v, dict):
+                    v = list(v.keys())
+                if not isinstance(v, (list, tuple)):
+                    raise Undecided("star of a non-list")
+                out += list(v)
+            else:
+                out.append(self.eval(a))
+        return out
+
     # -- calls -----------------------------------------------------------
     def call(self, e: ast.Call):
         f = e.func
         name = A.call_attr(e)
         if name in self.externals:
-            xa = [self.eval(a) for a in e.args]
+            xa = self.eval_args(e.args)
             xk = {k.arg: self.eval(k.value) for k in e.keywords if k.arg}
             return self.externals[name](xa, xk)
         if isinstance(f, ast.Call):
             callee = self.eval(f)
-            xa = [self.eval(a) for a in e.args]
+            xa = self.eval_args(e.args)
             xk = {k.arg: self.eval(k.value) for k in e.keywords if k.arg}
             if isinstance(callee, PyFunc):
                 return callee.f(xa, xk)
@@ -987,7 +1010,7 @@ class Interp:
                 return self.call_function(callee.node, xa, xk)
             raise Undecided("call of a computed callee")
         if isinstance(f, ast.Name) and isinstance(self.env.get(f.id), PyFunc):
-            xa = [self.eval(a) for a in e.args]
+            xa = self.eval_args(e.args)
             xk = {k.arg: self.eval(k.value) for k in e.keywords if k.arg}
             return self.env[f.id].f(xa, xk)
         if isinstance(f, ast.Attribute) and not (isinstance(f.value, ast.Name) and f.value.id in MODULE_NAMES):
@@ -996,7 +1019,7 @@ class Interp:
             except Undecided:
                 recv = None
             if "." + f.attr in self.externals and recv is not None:
-                xa = [self.eval(a) for a in e.args]
+                xa = self.eval_args(e.args)
                 xk = {k.arg: self.eval(k.value) for k in e.keywords if k.arg}
                 return self.externals["." + f.attr](recv, xa, xk)
             if isinstance(recv, Obj):
@@ -1052,7 +1075,7 @@ class Interp:
         # closures and inlined methods
         if isinstance(f, ast.Name) and isinstance(self.env.get(f.id), Closure):
             clo = self.env[f.id]
-            args = [self.eval(a) for a in e.args]
+            args = self.eval_args(e.args)
             kwargs = {k.arg: self.eval(k.value) for k in e.keywords if k.arg}
             if isinstance(clo.node, ast.Lambda):
                 sub = Interp(self.env, self.selfattrs, self.region, self.methods, self.cls_name, externals=self.externals)
@@ -1062,11 +1085,11 @@ class Interp:
             return self.call_function(clo.node, args, kwargs)
         if isinstance(f, ast.Attribute) and isinstance(f.value, ast.Name) and f.value.id == "self" and isinstance(self.selfattrs.get(self._mangle(name)), (PyFunc, Closure)):
             callee = self.selfattrs[self._mangle(name)]
-            xa = [self.eval(a) for a in e.args]
+            xa = self.eval_args(e.args)
             xk = {k.arg: self.eval(k.value) for k in e.keywords if k.arg}
             return callee.f(xa, xk) if isinstance(callee, PyFunc) else self.call_function(callee.node, xa, xk)
         if isinstance(f, ast.Attribute) and isinstance(f.value, ast.Name) and f.value.id == "self" and name in self.methods:
-            args = [self.eval(a) for a in e.args]
+            args = self.eval_args(e.args)
             kwargs = {k.arg: self.eval(k.value) for k in e.keywords if k.arg}
             return self.call_function(self.methods[name], args, kwargs, bind_self=True)
         args = e.args
@@ -1170,7 +1193,7 @@ class Interp:
             vals = [int(to_poly(ev(a)).const_value()) for a in args]
             return [Poly.const(i) for i in range(*vals)]
         if name == "zip":
-            seqs = [ev(a) for a in args]
+            seqs = self.eval_args(args)
             if not all(isinstance(s, (list, tuple)) for s in seqs):
                 raise Undecided("zip over non-lists")
             return [tuple(x) for x in zip(*seqs)]
@@ -1281,6 +1304,32 @@ class Interp:
             if isinstance(seq, (list, tuple)) and all(isinstance(x, str) for x in seq) and "key" not in kw:
                 rev = self.truth(ev(kw["reverse"])) if "reverse" in kw else False
                 return sorted(seq, reverse=rev)
+            if isinstance(seq, (list, tuple)):
+                rev = self.truth(ev(kw["reverse"])) if "reverse" in kw else False
+                keyf = ev(kw["key"]) if "key" in kw else None
+
+                def concrete(v):
+                    if isinstance(v, str):
+                        return (0, v)
+                    if isinstance(v, bool):
+                        return (1, Fraction(int(v)))
+                    if isinstance(v, Poly) and v.is_const():
+                        return (1, v.const_value())
+                    if isinstance(v, (tuple, list)):
+                        return (2, tuple(concrete(x) for x in v))
+                    raise Undecided("sorted: key is not a concrete string / number / tuple of these")
+
+                def keyof(x):
+                    if keyf is None:
+                        return concrete(x)
+                    if isinstance(keyf, Closure) and isinstance(keyf.node, ast.Lambda):
+                        sub = Interp(self.env, self.selfattrs, self.region, self.methods, self.cls_name, externals=self.externals)
+                        sub.env.update(keyf.interp.env if hasattr(keyf, "interp") and keyf.interp is not self else {})
+                        sub.env[keyf.node.args.args[0].arg] = x
+                        return concrete(sub.eval(keyf.node.body))
+                    raise Undecided("sorted key")
+
+                return sorted(seq, key=keyof, reverse=rev)
             raise Undecided("sorted of non-strings")
         if name == "set" and isinstance(f, ast.Name):
             return set(ev(args[0])) if args else set()
